@@ -87,7 +87,7 @@ int run_c16(const Args& a, Recorder& rec) {
         if ((idx++ % a.nshards) != a.shard) continue; if (!a.want(c.str())) continue;
         if (clk.s() > a.deadline) { rec.exhaustive = false; rec.note("deadline before " + c.str()); continue; }
         vmpi::ExploreResult R = vx_explore(a, rec, c, -1, std::max(10.0, a.deadline - clk.s()), T ? 3000000 : 400000, "C16");
-        long distinct = 0; for (auto& kv : R.outcomes) if (kv.first.empty() || kv.first[0] != '!') distinct++;
+        long distinct = 0; for (auto& kv : R.outcomes) if (kv.first.empty() || kv.first[0] != '!') { distinct++; if (!a.out.empty()) { FILE* f = fopen((a.out + ".outcomes").c_str(), "a"); if (f) { fprintf(f, "%s\t%s\n", c.str().c_str(), kv.first.c_str()); fclose(f); } } }
         rec.counters["configurations"]++; rec.counters["distinct_outcomes"] += distinct; if (distinct > 1) { multi_outcome_configs++; rec.nontrivial += distinct; }
         long nworkers = (c.harness == "skel") ? c.p.at("P") : c.p.at("P") - 1; bool vary = nworkers >= 2 && c.p.at("J") > nworkers;      // more jobs than workers: who gets the later jobs depends on timing if (vary) { should_vary++; if (distinct <= 1 && R.found.empty() && R.exhaustive) throw std::runtime_error("vacuous exploration: " + c.str() + " produced a single job->rank assignment in " + std::to_string(R.executions) + " executions"); }
         std::ostringstream s; s << c.str() << " : executions=" << R.executions << " states=" << R.states << " transitions=" << R.transitions << " outcomes=" << distinct << " longest=" << R.max_points << (R.exhaustive ? "" : " (NOT exhausted)"); if (idx % 7 == 0 || !R.found.empty()) rec.sample(s.str(), 12);
